@@ -115,6 +115,26 @@ def gen_cases(rng, tier):
             cases.append({'world': world, 'dm': rng.choice(W.MODES),
                           'op': {'o': rng.choice(['convert', 'conveq']),
                                  'x': ['q', _amount(rng), u], 'v': v}})
+    # units given by a two-item term  number ** k x unit  with k != 1 (rpm = 60 ** -1 Hz,
+    # KiB = 2 ** 10 B): the scale is the POWER times the scale of the unit (seeded C01-j:
+    # the exponent ignored); chains on top of such a unit too
+    for t in range(14 if tier == 'quick' else 140):
+        nb, nk = rng.choice([(60, -1), (2, 10), (10, -3), (3, -2), (12, 2), (2, -4), (10, 6)])
+        world = W.random_world(rng, n_classes=1, quantized_p=0.0, with_npow=(nb, nk, rng.randint(0, 5)))
+        cls = world['classes'][0]
+        np_sym = cls['units'][-1]['sym']
+        if rng.random() < 0.5:
+            cls['units'].append({'sym': np_sym + 'k', 'factor': '1000/1', 'fkind': 'int',
+                                 'base': np_sym})
+        views = W.Views(world)
+        syms = sorted(views.units)
+        mine = [np_sym] + ([np_sym + 'k'] if np_sym + 'k' in views.units else [])
+        for u in mine:
+            for v in rng.sample(syms, min(len(syms), 3)):
+                for a, b in ((u, v), (v, u)):
+                    cases.append({'world': world, 'dm': rng.choice(W.MODES),
+                                  'op': {'o': rng.choice(['convert', 'conveq']),
+                                         'x': ['q', _amount(rng), a], 'v': b}})
     return cases
 
 
